@@ -295,8 +295,14 @@ def rule_x7(repo):
     rets = [r for r in ast.walk(rs.node) if isinstance(r, ast.Return)]
     res_ok = bool(rets) and all(dedups(r.value) for r in rets)
     # normalisation of the input: `cnf = [<dedup>(clause) for clause in cnf]` before the nested functions are used
+    def per_clause_dedup(v):
+        # a duplicate-removing call applied to the variable of a comprehension that runs over the argument
+        tgts = {g.target.id for c in ast.walk(v) if isinstance(c, (ast.ListComp, ast.GeneratorExp)) for g in c.generators
+                if isinstance(g.target, ast.Name) and is_name(g.iter, 'cnf')}
+        return any(isinstance(c, ast.Call) and c.args and isinstance(c.args[0], ast.Name) and c.args[0].id in tgts and dedups(c)
+                   for c in ast.walk(v))
     entry = [n for n in walk_no_nested(f.node, include_root=False) if isinstance(n, ast.Assign) and is_name(n.targets[0], 'cnf') and
-             isinstance(n.value, (ast.ListComp, ast.GeneratorExp)) and dedups(n.value.elt)]
+             isinstance(n.value, (ast.ListComp, ast.GeneratorExp)) and (dedups(n.value.elt) or per_clause_dedup(n.value))]
     ac = _nested(repo, 'analyze_conflict')
     raw = [n for n in ast.walk(ac.node) if isinstance(n, ast.Assign) and isinstance(n.value, ast.Subscript) and is_name(n.value.value, 'cnf')]
     local = [n for n in ast.walk(ac.node) if isinstance(n, ast.Assign) and dedups(n.value) and raw and is_name(n.targets[0], raw[0].targets[0].id)]
@@ -309,5 +315,47 @@ def rule_x7(repo):
     return res
 
 
+def rule_x8(repo):
+    """The certificate names clauses by their position: 0 .. n-1 are the caller's clauses in the caller's
+    order, learned clauses follow.  The consumer (prover/proofrec.solve_cnf) replays it against its own copy of
+    the input.  The working list of the solver must therefore be a position-preserving image of the argument -
+    a copy, or a clause-by-clause map without filter - and afterwards only grow at the end."""
+    res = RuleResult('C15.X8', 'the working clause list keeps the caller\'s clauses at the caller\'s positions; it only grows at the end', floor=2)
+    f = repo.func(SAT, 'solve_cnf')
+    p = f.params()[0]
+    assigns = [n for n in walk_no_nested(f.node, include_root=False) if isinstance(n, ast.Assign) and any(is_name(t, p) for t in n.targets)]
+
+    def preserving(e):
+        if is_name(e, p):
+            return True
+        if isinstance(e, ast.Call) and (call_name(e) in ('copy', 'list', 'deepcopy', 'copy.copy', 'copy.deepcopy') or call_attr(e) in ('copy', 'deepcopy')) \
+                and len(e.args) == 1 and not e.keywords:
+            return preserving(e.args[0])
+        if isinstance(e, ast.Call) and call_attr(e) == 'copy' and not e.args:
+            return preserving(e.func.value)
+        if isinstance(e, ast.Subscript) and isinstance(e.slice, ast.Slice) and e.slice.lower is None and e.slice.upper is None and e.slice.step is None:
+            return preserving(e.value)
+        if isinstance(e, ast.ListComp) and len(e.generators) == 1 and not e.generators[0].ifs and preserving(e.generators[0].iter):
+            return True
+        return False
+    bad = [a for a in assigns if not preserving(a.value)]
+    res.add('%s :: solve_cnf :: working-list-is-positional-image' % SAT, not bad,
+            'copy / clause-by-clause map of the argument (%d assignment(s))' % len(assigns) if not bad else
+            '`%s` can drop, merge or reorder clauses: the ids of the trace no longer refer to the clauses of the caller, and the replay in '
+            'proofrec.solve_cnf resolves the wrong clauses' % src(bad[0], 80), '%s:%d' % (SAT, bad[0].lineno if bad else f.node.lineno))
+    shrink = []
+    for n in ast.walk(f.node):
+        if isinstance(n, ast.Call) and call_attr(n) in ('remove', 'pop', 'insert', 'sort', 'reverse', 'clear') and is_name(n.func.value, p):
+            shrink.append(n)
+        if isinstance(n, ast.Delete) and any(isinstance(t, ast.Subscript) and is_name(t.value, p) for t in n.targets):
+            shrink.append(n)
+        if isinstance(n, ast.Assign) and any(isinstance(t, ast.Subscript) and is_name(t.value, p) for t in n.targets):
+            shrink.append(n)
+    res.add('%s :: solve_cnf :: append-only' % SAT, not shrink,
+            'the list is only appended to' if not shrink else
+            '`%s` changes the position (or content) of recorded clauses' % src(shrink[0], 60), '%s:%d' % (SAT, shrink[0].lineno if shrink else f.node.lineno))
+    return res
+
+
 def rules(repo):
-    return [rule_x1(repo), rule_x2(repo), rule_x3(repo), rule_x4(repo), rule_x5(repo), rule_x6(repo), rule_x7(repo)]
+    return [rule_x1(repo), rule_x2(repo), rule_x3(repo), rule_x4(repo), rule_x5(repo), rule_x6(repo), rule_x7(repo), rule_x8(repo)]
